@@ -1,5 +1,6 @@
 import IstioModel.C01.Theorems
 import IstioModel.C01.ProtocolTheorems
+import IstioModel.C01.ProtocolV2Theorems
 
 /-!
 # C01 - the modelled push decision inside the convergence protocol
@@ -16,9 +17,18 @@ of the generated decision table:
   request would be skipped does not change what is generated), then for every history, batching
   and interleaving every quiescent state has every client up to date.
 
-Limits, said plainly: a proxy's view (`view p`: type, namespace, sidecar scope, previous scope,
-service targets ...) is fixed here, while in istiod the scope is itself recomputed from the
-configuration; that dynamic part is validated on the real code by the `converge` stream only.
+Limits, said plainly: in `convergence_model_static_view` a proxy's view (`view p`: type, namespace,
+sidecar scope, previous scope, service targets ...) is FIXED and every request carries the same
+reasons, so histories in which the scope or the service targets of a proxy change (every service,
+Sidecar, VirtualService or DestinationRule create / delete that concerns it) and merged reasons
+are outside that theorem; its hypothesis `Frame gen SingleKeyRel` is known to be false for the real
+generators on exactly those histories (recorded findings).  The second half of this file
+instantiates the stronger protocol of `ProtocolV2.lean` - snapshot rebuilt partially
+(`RebuildOK`), decision reading the world the proxy was last synced at and the snapshot being
+pushed (current and previous scope), reasons travelling with the merged request - with the
+modelled decision over views that DEPEND on the configuration: `convergence_model`.  There the
+hypotheses are about the real generators, the real partial rebuild and the real scope computation;
+they are validated by the `converge`, `rebuild` and `edsnarrow` streams, not proved.
 -/
 namespace IstioModel.C01
 open Protocol
@@ -51,11 +61,11 @@ theorem modelDec_skipSound (root : Nat) (rs : List Reason) (view : π → Proxy)
   rw [hdec] at this
   exact Bool.noConfusion this
 
-/-- **`convergence_model`.** With the modelled push decision on arbitrary merged requests: if the
+/-- **`convergence_model_static_view`.** For proxies whose view never changes: with the modelled push decision on arbitrary merged requests: if the
     generator satisfies the frame hypothesis with respect to the SINGLE-key decisions, every
     quiescent state reached by any finite history under any batching has every connected client
     holding exactly what a fresh generation from the final configuration produces. -/
-theorem convergence_model (root : Nat) (rs : List Reason) (view : π → Proxy)
+theorem convergence_model_static_view (root : Nat) (rs : List Reason) (view : π → Proxy)
     (gen : World Key → π → XType → ρ)
     (hframe : Frame gen (SingleKeyRel root rs view))
     (w0 : World Key) (h0 : π → XType → ρ) (l : List (Step Key π))
@@ -65,6 +75,89 @@ theorem convergence_model (root : Nat) (rs : List Reason) (view : π → Proxy)
         gen (run gen (modelDec root rs view) (init w0 h0) l).world p t :=
   convergence_frame gen (modelDec root rs view) (SingleKeyRel root rs view) hframe
     (modelDec_skipSound root rs view) w0 h0 l hq
+
+/-! ## The modelled decision over configuration-dependent views (ProtocolV2) -/
+
+section V2
+open ProtocolV2
+
+variable {σ : Type}
+
+/-- What a proxy looks like when a request is decided: `cur` is its view of the snapshot being
+    pushed, `prev` its view of the world it was last synced at; the previous scope and the previous
+    service targets are the current ones of that earlier view (`SetSidecarScope`,
+    `SetServiceTargets`). -/
+def decidingProxy (cur prev : Proxy) : Proxy :=
+  { cur with prevScope := prev.scope, prevTargets := prev.targets, prevMg := prev.mg,
+             prevLocalSvc := prev.localSvc }
+
+/-- the model request of a V2 protocol request: keys and reasons as merged by debouncer and queue -/
+def reqOfV2 (r : ProtocolV2.Req Key σ Reason) : Req :=
+  { keys := r.keys, reasons := r.reasons, forced := false }
+
+/-- the modelled decision as a V2 protocol decision: it reads the view of the world the proxy was
+    last synced at (`wl`) and of the snapshot being pushed (`r.push`) -/
+def modelDecV2 (root : Nat) (view : ProtocolV2.World Key → π → Proxy) :
+    π → XType → ProtocolV2.World Key → ProtocolV2.Req Key σ Reason → Bool :=
+  fun p t wl r => pushDecision root t (reqOfV2 r) (decidingProxy (view r.push p) (view wl p))
+
+/-- relevance of a key between two worlds = its single-key request, with the reasons of the merged
+    request, is pushed for the proxy as it looks between those worlds -/
+def SingleKeyRelAt (root : Nat) (rs : List Reason) (view : ProtocolV2.World Key → π → Proxy) :
+    ProtocolV2.World Key → ProtocolV2.World Key → Key → π → XType → Prop :=
+  fun wl w' k p t =>
+    pushDecision root t { keys := [k], reasons := rs, forced := false } (decidingProxy (view w' p) (view wl p)) = true
+
+/-- The frame hypothesis for the modelled decision over dynamic views: whenever every key on which
+    two worlds differ would - alone, with the request's reasons, for the proxy as it looks between
+    the two worlds - be skipped, generation from the two (from-scratch) snapshots agrees.  This is a
+    statement about the REAL generators, scope computation and skip tables together; it is what the
+    `converge` stream validates, and it is false on the recorded findings. -/
+def ModelFrame (root : Nat) (view : ProtocolV2.World Key → π → Proxy)
+    (gen : σ → π → XType → ρ) (build : ProtocolV2.World Key → σ) : Prop :=
+  ∀ (rs : List Reason) (wl w' : ProtocolV2.World Key) (p : π) (t : XType),
+    (∀ k, wl k ≠ w' k → ¬ SingleKeyRelAt root rs view wl w' k p t) → gen (build wl) p t = gen (build w') p t
+
+omit [DecidableEq π] in
+/-- Under `ModelFrame` the modelled decision satisfies `SkipOK`: by monotonicity a skipped merged
+    request skips each of its keys alone (same reasons, same proxy), and the keys on which the two
+    worlds differ are all announced. -/
+theorem modelDecV2_skipOK (root : Nat) (view : ProtocolV2.World Key → π → Proxy)
+    (gen : σ → π → XType → ρ) (build : ProtocolV2.World Key → σ)
+    (hframe : ModelFrame root view gen build) :
+    ProtocolV2.SkipOK gen build (modelDecV2 (σ := σ) root view) := by
+  intro p t wl r _ hdec hcov
+  apply hframe r.reasons wl r.push p t
+  intro k hk hrel
+  have hmem : k ∈ r.keys := hcov k hk
+  have hmono := pushDecision_mono root t { keys := [k], reasons := r.reasons, forced := false } (reqOfV2 r)
+    (decidingProxy (view r.push p) (view wl p))
+    (by intro k' hk'; simp only [List.mem_singleton] at hk'; subst hk'; exact hmem)
+    rfl (by intro w hw; exact hw) (by intro h; exact h) hrel
+  have : modelDecV2 (σ := σ) root view p t wl r = true := hmono
+  rw [hdec] at this
+  exact Bool.noConfusion this
+
+/-- **`convergence_model`.** The modelled push decision on merged multi-key requests with merged
+    reasons, for proxies whose scope, targets and gateways are recomputed from the configuration
+    (current and previous view), over a snapshot that is rebuilt partially: if the partial rebuild
+    equals a from-scratch build whenever it is told every changed key (`RebuildOK`) and the
+    generators satisfy `ModelFrame`, then after every finite history, under every batching and
+    interleaving, every connected client in every quiescent state holds exactly what a freshly
+    started control plane generates from the final configuration. -/
+theorem convergence_model (root : Nat) (view : ProtocolV2.World Key → π → Proxy)
+    (gen : σ → π → XType → ρ) (build : ProtocolV2.World Key → σ)
+    (rebuild : σ → List Key → Bool → ProtocolV2.World Key → σ)
+    (hrb : ProtocolV2.RebuildOK build rebuild) (hframe : ModelFrame root view gen build)
+    (w0 : ProtocolV2.World Key) (h0 : π → XType → ρ) (l : List (ProtocolV2.Step Key π Reason))
+    (hq : ProtocolV2.Quiescent (ProtocolV2.run rebuild gen (modelDecV2 (σ := σ) root view) (ProtocolV2.init build w0 h0) l)) :
+    ∀ p t, (ProtocolV2.run rebuild gen (modelDecV2 (σ := σ) root view) (ProtocolV2.init build w0 h0) l).conn p = true →
+      (ProtocolV2.run rebuild gen (modelDecV2 (σ := σ) root view) (ProtocolV2.init build w0 h0) l).held p t =
+        gen (build (ProtocolV2.run rebuild gen (modelDecV2 (σ := σ) root view) (ProtocolV2.init build w0 h0) l).world) p t :=
+  ProtocolV2.convergence build rebuild gen (modelDecV2 (σ := σ) root view) hrb
+    (modelDecV2_skipOK root view gen build hframe) w0 h0 l hq
+
+end V2
 
 /-! ## The second repair: previous service targets -/
 
